@@ -20,6 +20,7 @@ RULE = (
     "are checked right after the link, so neither may disturb the other's answers). "
     "Non-trivial = the case contains a node with depth >= 1 that has a sibling or a descendant (shape cases), or a history "
     "with >= 3 successful link changes. Enumerated cases distinct by construction; generated ones hashed."
+    ' Also: sparse reads between calls; every parent assignment on forests N <= 4 with an evicting hook, attributes checked right afterwards.'
 )
 ASSUMPTIONS = [
     "the definitions are recomputed using only .parent and .children, compared by identity",
